@@ -27,7 +27,7 @@ ASSUMPTIONS = ["negative case / tracked indices follow Python indexing and are n
 
 KINDS = [
     "unrelated-wire", "outside-cfg-wire", "case-outputs-disagree", "case-index-out-of-range", "case-built-twice", "cond-exit-unbuilt",
-    "exit-row-mismatch", "function-outputs-differ", "poly-call-no-instantiation", "poly-call-wrong-arg-count", "non-function-called",
+    "exit-row-mismatch", "function-outputs-differ", "poly-call-no-instantiation", "poly-call-wrong-arg-count", "poly-call-no-type-args", "non-function-called",
     "non-dataflow-wire", "int-wire-in-dfg", "untracked-index", "incomplete-op",
 ]
 
@@ -48,6 +48,7 @@ def expected(kind):
         "function-outputs-differ": (ValueError,),
         "poly-call-no-instantiation": (NoConcreteFunc,),
         "poly-call-wrong-arg-count": (NoConcreteFunc,),
+        "poly-call-no-type-args": (NoConcreteFunc,),
         "non-function-called": (ValueError,),
         "non-dataflow-wire": (ValueError,),
         "int-wire-in-dfg": (ValueError,),
@@ -123,7 +124,7 @@ def local_wires(prog, R, evr):
     """region -> wires (refs) that are defined in that region, harvested from uses."""
     out = {}
     for ev in prog["events"]:
-        ws = list(ev.get("args", [])) + list(ev.get("outs", [])) + list(ev.get("just", [])) + list(ev.get("rest", []))
+        ws = list(ev.get("args") or []) + (list(ev.get("outs") or []) if ev["e"] == "close" else []) + (list(ev.get("just") or []) + list(ev.get("rest") or []) if ev["e"] in ("loop", "insert") else [])
         for k in ("sum", "cond"):
             if isinstance(ev.get(k), dict):
                 ws.append(ev[k])
@@ -258,7 +259,7 @@ def inject(prog, kind, sel):
                 return None
             evs[ci]["outs"] = [w]
         return p, ci
-    if kind in ("poly-call-no-instantiation", "poly-call-wrong-arg-count"):
+    if kind in ("poly-call-no-instantiation", "poly-call-wrong-arg-count", "poly-call-no-type-args"):
         cands = [(i, ev) for i, ev in enumerate(evs) if ev["e"] in ("call", "load_func") and ev["sig"]["params"]]
         c = pick(cands)
         if c is None:
@@ -266,6 +267,8 @@ def inject(prog, kind, sel):
         i, ev = c
         if kind == "poly-call-no-instantiation":
             ev["drop_instantiation"] = True
+        elif kind == "poly-call-no-type-args":
+            ev["drop_all_type_args"] = True
         else:
             ev["drop_type_arg"] = True
         return p, i
@@ -389,6 +392,8 @@ def run_injected(p):
             ev["__inst"] = "none"
         if ev.get("drop_type_arg"):
             ev["__inst"] = "short"
+        if ev.get("drop_all_type_args"):
+            ev["__inst"] = "noargs"
     try:
         r = _run(p2, before)
         raised_at[0] = "to_json"
@@ -430,6 +435,8 @@ def _run(p, before):
             targs = [mk_arg(a) for a in ev["targs"]]
             if ev["__inst"] == "none":
                 inst = None  # type arguments alone do not make the call concrete
+            elif ev["__inst"] == "noargs":
+                targs = None  # an instantiation without type arguments
             else:
                 targs = targs[:-1]
             if ev["e"] == "call":
@@ -619,6 +626,6 @@ SUBS = [
         sample_ok=lambda c: len(json.dumps(c)) < 2500),
     Sub("cond-injections", check, strategy=targeted(["case-outputs-disagree", "case-index-out-of-range", "case-built-twice", "cond-exit-unbuilt"], ("cond", "dfg", "function")), nontrivial=nontrivial,
         classes=classes, n_quick=150, n_thorough=800, sample_ok=lambda c: len(json.dumps(c)) < 2500),
-    Sub("call-injections", check, strategy=targeted(["poly-call-no-instantiation", "poly-call-wrong-arg-count", "non-function-called", "function-outputs-differ", "non-dataflow-wire"], ("module",), True),
+    Sub("call-injections", check, strategy=targeted(["poly-call-no-instantiation", "poly-call-wrong-arg-count", "poly-call-no-type-args", "non-function-called", "function-outputs-differ", "non-dataflow-wire"], ("module",), True),
         nontrivial=nontrivial, classes=classes, n_quick=150, n_thorough=800, sample_ok=lambda c: len(json.dumps(c)) < 2500),
 ]
